@@ -361,7 +361,9 @@ class MultitaskMultivariateNormal(MultivariateNormal):
                 # A block of the reversely interleaved covariance matrix
                 row_idx = _normalize_slice(row_idx, num_rows)
                 col_idx = _normalize_index(col_idx, num_cols)
-                new_slice = slice(row_idx.start + col_idx, row_idx.stop * num_cols + col_idx, row_idx.step * num_cols)
+                new_slice = slice(
+                    row_idx.start * num_cols + col_idx, row_idx.stop * num_cols + col_idx, row_idx.step * num_cols
+                )
                 new_cov = self.lazy_covariance_matrix[batch_idx + (new_slice, new_slice)]
                 return MultivariateNormal(mean=new_mean, covariance_matrix=new_cov)
             elif (
@@ -409,17 +411,5 @@ def _normalize_index(i: int, dim_size: int) -> int:
 
 
 def _normalize_slice(s: slice, dim_size: int) -> slice:
-    start = s.start
-    if start is None:
-        start = 0
-    elif start < 0:
-        start = dim_size + start
-    stop = s.stop
-    if stop is None:
-        stop = dim_size
-    elif stop < 0:
-        stop = dim_size + stop
-    step = s.step
-    if step is None:
-        step = 1
-    return slice(start, stop, step)
+    # slice.indices clamps out-of-range bounds the way tensor indexing does
+    return slice(*s.indices(dim_size))
